@@ -131,7 +131,7 @@ class Site(object):
 
 
 def generate(rng, host='a.test', n_pages=None, requisites=True, redirects=True, subdirs=True, spellings=None,
-             extra_hosts=(), junk_links=False):
+             extra_hosts=(), junk_links=False, link_redirect_targets=False):
     site = Site(host)
     n = n_pages or rng.choice([3, 5, 8, 12, 20, 40])
     base = 'http://' + host
@@ -211,6 +211,10 @@ def generate(rng, host='a.test', n_pages=None, requisites=True, redirects=True, 
             target.is_redirect_target = True
             add_link(rng, site, rng.choice(html), r.url, 'a', allow)
             site.features.add('redirect-%d' % r.status)
+            if link_redirect_targets:
+                # own scenario class: the landing page is also linked directly by some page
+                add_link(rng, site, rng.choice(html), target.url, 'a', allow)
+                site.features.add('redirect-target-also-linked')
     if junk_links:
         # links that cannot be parsed as URLs, mixed into pages that also carry good links
         for u in html:
